@@ -36,7 +36,8 @@ async def consume(engine, req, w, limit=64):
         # the request's own initial_value is the parent of the SOURCE; every response is computed from its event
         # (null events included), never from this object
         kw["initial_value"] = w.root_object(w.s.subscription, "init")
-    async for resp in engine.subscribe(req.text, operation_name=req.op_name, context={"world": w}, variables=req.variables, **kw):
+    opn = getattr(req, "op_name_override", req.op_name)
+    async for resp in engine.subscribe(req.text, operation_name=opn, context={"world": w}, variables=req.variables, **kw):
         out.append(resp)
         if len(out) > limit:
             break
@@ -185,8 +186,15 @@ async def run_case(ctx, rng, index):
                     if stray:
                         ctx.violation("task-alive-after-stream", repr(stray[:2]), c2)
             # invalid requests: one errors-only response, source never started
-            for badkind in ("variables", "validation"):
-                if badkind == "variables":
+            for badkind in ("variables", "validation", "operation-name"):
+                if badkind == "operation-name":
+                    # a name that selects nothing (unknown, or differing only in case), also when the document has one operation
+                    bad = X.Request(req.doc, req.text, req.op, req.variables, req.wseed, False, req.pass_opname)
+                    nm = req.op.name
+                    bad.op_name_override = rng.choice(["NoSuchOperation_", (nm.swapcase() if nm and nm.swapcase() != nm else "noSuchOp_")])
+                    if any(o.name == bad.op_name_override for o in req.doc.ops):
+                        continue
+                elif badkind == "variables":
                     if not req.op.vardefs:
                         continue
                     bad = X.Request(req.doc, req.text, req.op, dict(req.variables, **{req.op.vardefs[0][0]: {"definitely": ["wrong"]}}),
